@@ -14,7 +14,7 @@ TOL = 1e-9
 
 MODEL_MATCHERS = {
     # HolsteinModel.j_constant raises ValueError("J is not constant") for a homogeneous J = 0
-    "F17": lambda spec, sig, msg: spec.get("kind") == "holstein" and sig == "holstein.j_constant.zero",
+    "FC16a": lambda spec, sig, msg: spec.get("kind") == "holstein" and sig == "holstein.j_constant.zero",
 }
 
 
